@@ -339,8 +339,8 @@ def isolation_cases(ctx, n):
 
 def run(ctx):
     import logging
-    logging.getLogger("deep").setLevel(logging.CRITICAL + 1)
-    logging.getLogger().setLevel(logging.CRITICAL + 1)
+    from ..lib.quiet import quiet_logging
+    quiet_logging()
     ctx.rule = ("(a) a name from {locals, module globals, builtins, names of the agent's own modules, nowhere} looked up through "
                 "the real evaluate_expression with generated locals/globals; (b) conditions whose evaluation yields one of 21 "
                 "values or raises one of 11 exceptions (Exception and BaseException kinds, messages '1', 'true', 'yes', 't') "
